@@ -1,5 +1,7 @@
 import Driver.Util
 import RQ.ModelF.Cost
+import Driver.CmdData
+import Driver.CmdSched
 /-! Command table of the replay driver (model instantiated at `Float`). -/
 namespace Driver
 open RQ.F
@@ -31,6 +33,12 @@ def cmdCost : List String → Option String
 
 def dispatch (toks : List String) : String :=
   match cmdCost toks with
+  | some r => r
+  | none =>
+  match cmdData toks with
+  | some r => r
+  | none =>
+  match cmdSched toks with
   | some r => r
   | none => "ERR unknown-command"
 
